@@ -1387,8 +1387,8 @@ func runC14(res *hx.Result, rng *hx.Rng, tier string, outdir string) {
 		nSeq, nReg, nConc = 4000, 3000, 4000
 	}
 	on := c14Probe(res)
-	cf := hx.NewCases(outdir, "C14", "From QV Require Import Bytes Property PropertySubs Lin C14Run.", "mismatches cfg scases rcases ccases", res,
-		"scases", "scase", "rcases", "rcase", "ccases", "ccase")
+	cf := hx.NewCases(outdir, "C14", "From QV Require Import Bytes Property PropertySubs Lin C14Run.", "mismatches cfg scases ccases rcases", res,
+		"scases", "scase", "ccases", "ccase", "rcases", "rcase")
 	cf.Extra = append(cf.Extra, "Local Open Scope N_scope.", fmt.Sprintf("Definition cfg := mkcfg %s.", hx.Bool(on)))
 	c14Sequential(res, rng, cf, nSeq)
 	if tier == "thorough" {
@@ -1396,7 +1396,7 @@ func runC14(res *hx.Result, rng *hx.Rng, tier string, outdir string) {
 		res.Exhaustive = true
 		res.Notes = append(res.Notes, "exhaustive part: every sequence of length <= 5 over {get, set 5, set 7, set -1, set String(abcd), UpdateDelay(9)} on a fresh object with one subscriber (9330 sequences)")
 	}
-	c14Registry(res, rng, cf, nReg)
 	c14Concurrent(res, rng, cf, nConc)
+	c14Registry(res, rng, cf, nReg) // last: the sequences above keep the random stream they had before this family existed
 	cf.Flush()
 }
